@@ -923,6 +923,7 @@ var c04Fixed = []string{"\"'\r\n\"", "'\r\n'", "\"\r\n\"", "\"a\r\n\"", "\"a\r\n
 	"len(nil)", "all(AI,{.})", "all(AI,{.X})", "all(AI,{#.X})", "map(AI,{{a:#}})", "a[", "a[]", "a[:", "a[:]", "a[::]", "a[1:2:3]", "a[:1]", "a[1:]", "a[nil:nil]", "a['x':]", "1[0]", "'abc'[1:2]", "'abc'[5:1]",
 	"-", "--", "-+-+1", "!", "!!true", "not not true", "+", "1 +", "+ 1", "1 + + 2", "1 ++ 2", "1 ** ** 2", "1 *** 2", "1 === 2", "1 =< 2", "1 <> 2", "1 & 2", "1 | 2", "1 = 2", "a := 1", "a;b", "a b",
 	"1 / 0", "1 % 0", "1.0 / 0", "0 ** -1", "I / 0", "I % 0", "2 ** 1000", "(1)", "()", "(", ")", "((1)", "(1))", "(,)", "é", "é + 1", "日本語", "a\u00a0b", "a\u2028b", "\ufeff1", "１", "٣", "a٣", "$a", "_", "$", "a$b",
+	"Twice(1, 2)", "Twice()", "Twice(1, 2, 3)", "PtrM(1, 2)", "PtrM()", "St.Get(1)", "St.Get(1, 2)", "P.Get(1)", "St.Next.Get(2)", "P?.Get(1)", "Twice(Twice(1, 2))", "[Twice(1, 2)]", "Add(1, 2, 3)", "Inc(1, 2)", "Inc()",
 	"true()", "nil.x()", "1.x", "1.5.x", "'a'.x", "a.b.c.d()", "a?.b?.c?.d", "Boom(1)", "Boom(Boom(1))", "Add(Boom(1), 2)", "Add(1)", "Add(1,2,3)", "Add('a','b')", "Add(nil,nil)", "Inc(nil)", "Sum()", "Sum(1,'a')",
 	"Fast()", "Fast(nil)", "Id(nil)", "Id(Boom)", "Half(1)", "Half('a')", "Twice(1)", "PtrM(1)", "P.Get()", "P.Next.Next.Next.X", "St.Next.Get()", "Any.foo", "Any?.foo", "Any.foo()", "Any?.foo()", "MA.k.z", "MI.a.b",
 	"AI[10]", "AI[-1]", "AI[I64]", "AS['a']", "MI[1]", "MA[nil]", "AA[AA]", "1..0", "1..I64", "I64..1", "-1..-5", "1..1e3", "'a'..'b'", "nil..nil", "len(1..1000000)", "len(1..1000001)", "map(1..3, {1..3})",
@@ -1399,6 +1400,32 @@ func runC04() {
 				env := envs[en]
 				re := c04Guard(func() (interface{}, error) { return expr.Eval(src, env) })
 				o.judge("eval", c04Input{Src: src, Env: en}, re, false)
+			}
+		}
+	}
+
+	// ---- loop bodies around the 64 KiB jump limit: every size in a window around the limit must either be refused
+	// by Compile or run to completion (a wrapped backward offset makes the VM spin forever)
+	{
+		lo, hi := 16355, 16400
+		step := 1
+		if !thorough {
+			step = 1
+		}
+		for _, bi := range []string{"map", "filter", "all", "count"} {
+			for n := lo; n <= hi && c04Hangs < 3; n += step {
+				body := strings.Repeat("I+", n-1) + "I"
+				if bi != "map" {
+					body += " > 0"
+				}
+				src := fmt.Sprintf("%s(1..2, {%s})", bi, body)
+				in := c04Input{Src: src, Opts: c04Opts{Optimize: -1}}
+				r := c04Guard(c04CompileCall(src, func() []expr.Option { return nil }))
+				cls := o.judge("compile", in, r, true)
+				rep.hist("loop-limit sweep: compile " + cls)
+				if cls == "ok" {
+					o.runAll(in, r.val.(*vm.Program), []string{"base"})
+				}
 			}
 		}
 	}
